@@ -36,19 +36,14 @@ SPEC = {
             "run and the presented weights; z-test of production sampler frequencies.", "7 (C10)",
             "rand_distr::WeightedAliasIndex / thread_rng trusted. "),
     "C11": ("Kernel-checked: acceptance <-> declarative contract on node occurrences (over R; completeness and blame for every number type), a rejection names a violated rule, accepted games satisfy WFgame + PerfectRecall (whole history) + ChanceOK, accepted data is finite/positive for every number type incl. binary64. Correspondence on valid and invalid trees + independent Python contract oracle.", "7 (C11)", ""),
-    "C12": ("Kernel-checked invariance theorems on the model (rescaling, renaming, scaling, shifting, swapping) + correspondence of "
-            "original vs transformed presentations through the implementation.", "7 (C12)", ""),
+    "C12": ("Kernel-checked invariance theorems: rescaling chance weights, inserting/removing transparent nodes and injective renaming give literally the same from_root result (up to names), hence the same evaluation and the same solve by every method; payoffs x c>0 scale utilities/regrets/bounds with strategies unchanged (fallback weight 0 or +-inf: necessary, counterexample proved), + constant shifts utility only and leaves the solver unchanged, swapping the players mirrors everything; unsampled and chance-sampled methods. Correspondence of original vs transformed presentations through the implementation and the model.", "7 (C12)", "Inexact variants (x3, +constant) are compared at T <= 10 with tolerance 1e-6. "),
     "C13": ("Kernel-checked theorems on the iterator state machines (exact lengths at every prefix, items, round trip) + "
             "correspondence incl. len() before every next().", "7 (C13)", ""),
     "C14": ("Kernel-checked agreement of the hash-based and scan-based import models for every input + result/ok-iff theorems + "
             "correspondence with an independent oracle.", "7 (C14)", ""),
-    "C15": ("Model of the CLI pipeline from the parsed AST (Gambit conversion, constant-sum shift, output assembly) with theorems on "
-            "utilities/regrets + end-to-end correspondence on the shipped binary with generated .efg/.json files.", "7 (C15)",
-            "Text parsing (serde_json, gambit-parser), clap and I/O are dependencies, not modelled. "),
-    "C16": ("Theorems on the clip decision and option mapping of the CLI model + end-to-end correspondence of the binary with the "
-            "library and the model over the option space.", "7 (C16)", "clap / I/O not modelled. "),
-    "C17": ("Semantic rejection categories on the AST-level model + corruption stream on the shipped binary.", "7 (C17)",
-            "PARTIAL: malformed bytes are rejected by the dependencies' parsers; that part is a test with an independent oracle. "),
+    "C15": ("Model of the binary's pipeline after text parsing (json/gambit readers, Output assembly) executed against the shipped binary; kernel-checked: the printed numbers are get_info of the printed profile, for constant-sum Gambit files the utilities are each player's own expected payoff on the game as written and add up to the constant, printed strategies are valid rows with every name once. End-to-end monitor: printed strategies re-evaluated on the file-level game by an independent Python evaluator; -m full outputs vs library vs model.", "7 (C15)", "Text parsing (serde_json, gambit-parser), clap and I/O are dependencies, not modelled. "),
+    "C16": ("Kernel-checked clip decision (pruned iff strictly lower regret, printed profile valid for every threshold incl. NaN/inf, never worse) + end-to-end correspondence of the binary with the library and the model over the option space (presets, budgets incl. -t 0, thresholds, threads, routes, formats, twin JSON/Gambit encodings).", "7 (C16)", "Option plumbing (clap), route and format equivalences are decided by the differential check, not by a theorem. "),
+    "C17": ("Kernel-checked semantic rejection layer of the reader model (total, a rejection yields no game, not-constant-sum iff the 0.1% rule, duplicate-infosets iff numeric clash or shared name per player with separate name spaces, game error iff from_root refuses) executed against the binary on the same parsed files + corruption stream on the shipped binary (exit status, documented anchors, no output).", "7 (C17)", "PARTIAL: malformed bytes / missing fields / player count are rejected by the dependencies' parsers; that part is a test with generator-computed expectations. "),
     "C18": ("Kernel-checked theorems over the real-number instance of the model of Strategies::truncate (validity for every "
             "threshold incl. NaN/inf via arbitrary predicates, exact support and proportional rescaling, nothing-above branch, "
             "small-threshold identity, idempotence) + correspondence + independent monitor.", "7 (C18)", ""),
